@@ -82,11 +82,12 @@ type resolvedInfo struct {
 	// The schema to which Ref refers.
 	resolvedRef *Schema
 
-	// If the schema has a dynamic ref, exactly one of the next two fields
-	// will be non-zero after successful resolution.
-	// The schema to which the dynamic ref refers when it acts lexically.
+	// If the schema has a dynamic ref, resolvedDynamicRef is non-nil after
+	// successful resolution.
+	// The schema to which the dynamic ref refers lexically.
 	resolvedDynamicRef *Schema
-	// The anchor to look up on the stack when the dynamic ref acts dynamically.
+	// The anchor to look up on the stack when the dynamic ref acts dynamically;
+	// empty if it acts lexically.
 	dynamicRefAnchor string
 
 	// The following fields are independent of arguments to Schema.Resolved,
@@ -503,14 +504,15 @@ func (r *resolver) resolveRefs(rs *Resolved) error {
 			if err != nil {
 				return err
 			}
+			// The lexically referenced schema. If it has no dynamic anchor,
+			// the dynamic ref behaves like a lexical ref.
+			info.resolvedDynamicRef = refSchema
 			if frag != "" {
 				// The dynamic ref's fragment points to a dynamic anchor.
-				// We must resolve the fragment at validation time.
+				// We must resolve the fragment at validation time; the lexically
+				// referenced schema is used if no schema resource in the dynamic
+				// scope declares the anchor.
 				info.dynamicRefAnchor = frag
-			} else {
-				// There is no dynamic anchor in the lexically referenced schema,
-				// so the dynamic ref behaves like a lexical ref.
-				info.resolvedDynamicRef = refSchema
 			}
 		}
 	}
